@@ -54,6 +54,16 @@ CHECKS = {
     text="ShroudLenTrim, StrCopy, StrBlankFill, StrAlloc/Free, StrArrayAlloc/Free (C and C++ text) and ShroudStrToArray + CopyStringAndFree (C++) are called for all source lengths 0..N x destination lengths 0..N x trimmed lengths x nsrc=-1 x NULL source x all contents over {'a',' '} up to length 6 (N=10 quick, 14 thorough). Held = no sanitizer report, no guard violation, every result equal to the specification.",
     note="Trusted: gcc 12 ASan/UBSan; the specification in native/c10_driver.c. nonnull-attribute check disabled (zero-length copies from NULL read nothing).",
     design="DESIGN.md §2 C10"),
+ "C01": dict(
+    technique="generated wrappers compiled with ASan+UBSan, linked with an instrumented subject library and driven by a synthesised Fortran program; library RECV/SEND trace and caller OUT records compared with a reference model; metamorphic comparison across F_CFI / debug; upstream FRUIT drivers under sanitizers",
+    text="Libraries built from the admitted-grammar table (scalars of 10 native types, bool, pointers/references in every intent, rank-1 arrays with implied extent, dimension(n) and fixed outputs, char*/std::string in every intent and as result incl. +len, std::vector in/out/inout, overloads, default arguments with and without suffixes, function templates, fortran_generic, classes) for language c and c++, F_CFI off/on, debug off/on: every function is called from Fortran at a base point and with each battery value (integer/real boundary values, empty / blank / blank-containing / full-length strings, empty arrays) through the generic and the specific name; the library must log exactly the documented values and the caller must see exactly what the library produced, truncated/padded/allocated as documented. 1.4k calls quick, 5k thorough, plus upstream main.f drivers.",
+    note="Trusted: reference model (vf/libgen/ir.py), documented-API mapping (vf/drivers/fortran.py), gfortran/gcc 12 sanitizers. Not covered: structs, pointer results with dimension, owner/deref variants (covered only by upstream drivers), compilers other than GNU 12.",
+    design="DESIGN.md §2 C01"),
+ "C02": dict(
+    technique="generated C API compiled with ASan+UBSan, linked with an instrumented C++ subject library and driven by a synthesised C99 driver that includes only generated headers; RECV/SEND trace and OUT records compared with a reference model; upstream testc.c drivers",
+    text="Generated C++ libraries (same shape table; customised C_prefix, namespaces) are called through the documented C names with the value battery; the C++ callee must log the passed values (references/strings/bool reconstructed, declaration order, right object serial as this) and the C caller must read back the produced result and outputs; constructors/destructors are followed through a live-object counter at every quiescent point.",
+    note="Trusted: reference model and documented C API mapping (vf/drivers/c.py). Functions with std::vector arguments or std::string by-value results have no plain C entry point and are exercised through Fortran (C01).",
+    design="DESIGN.md §2 C02"),
 }
 
 NOT_APPLICABLE = []
